@@ -53,6 +53,10 @@ inductive Guard where
   | any (gs : List Guard)
   /-- `guard::Not(g)` -/
   | not (g : Guard)
+  /-- a guard that reads application data through its `GuardContext`
+  (`guard::fn_guard(|ctx| ctx.app_data::<Marker>() == Some(n))`, i.e. `ServiceRequest::app_data`,
+  `service.rs:277`): accepts iff the innermost marker visible *when the guard runs* is `n` -/
+  | data (n : Nat)
 
 /-- the part of a request that routing looks at -/
 structure Req where
@@ -61,6 +65,11 @@ structure Req where
   path : Chars
   /-- header names are lower-case; several values per name are kept in order -/
   headers : List (String × String)
+  /-- what `ServiceRequest::app_data::<Marker>()` returns at the moment a guard looks at the
+  request: the innermost marker among the containers pushed so far. It is not part of the
+  incoming request; the router sets it (`Req.seen`) from the request state before every guard
+  evaluation. -/
+  data : Option Nat := none
 
 /-- `HeaderMap::get`: first value of the name -/
 def headerGet : List (String × String) → String → Option String
@@ -86,6 +95,7 @@ def Guard.eval (r : Req) : Guard → Bool
   | .all gs => evalAll r gs
   | .any gs => evalAny r gs
   | .not g => !(Guard.eval r g)
+  | .data n => r.data == some n
 /-- `guards.iter().all(|g| g.check(ctx))` (also `AllGuard::check`, `RouteService::check`) -/
 def evalAll (r : Req) : List Guard → Bool
   | [] => true
@@ -188,13 +198,17 @@ def commit (st : St) (len : Nat) (caps : List Cap) (data : Option Nat) (idx : Na
       | none => st.data
     ids := st.ids ++ [idx] }
 
+/-- the request as a guard sees it in state `st`: `GuardContext::app_data` is
+`ServiceRequest::app_data`, which searches the containers pushed so far innermost-first -/
+def Req.seen (req : Req) (st : St) : Req := { req with data := st.data.getLast? }
+
 /-- one iteration of `recognize_fn`'s loop for entry `n` (index `idx`): pattern against the
 unprocessed path, then the guards; `none` leaves the request untouched -/
 def accept (matchPat : Matcher Pat) (req : Req) (n : Node Pat) (st : St) (idx : Nat) : Option St :=
   match matchPat n.pat n.isPrefix (unprocessed req st) with
   | none => none
   | some (len, caps) =>
-    if evalAll req n.guards then some (commit st len caps n.data idx) else none
+    if evalAll (req.seen st) n.guards then some (commit st len caps n.data idx) else none
 
 /-- `ResourceService::call`: first route whose guards all pass -/
 def firstRoute (req : Req) : List Route → Option Nat
@@ -212,7 +226,7 @@ mutual
 `ScopeService::call`); `inh` is the default service of the enclosing configuration -/
 def serve (matchPat : Matcher Pat) (req : Req) : Node Pat → St → Target → Outcome
   | .resource _ _ _ routes dflt, st, _ =>
-    match firstRoute req routes with
+    match firstRoute (req.seen st) routes with
     | some h => ⟨.handler h, st⟩
     | none => ⟨effDefault dflt .notAllowed, st⟩
   | .scope _ _ _ children dflt, st, inh =>
